@@ -59,6 +59,9 @@ type mapEntry struct {
 type Map struct {
 	KeyT    types.Type
 	Entries []*mapEntry
+	// csmap model: keys whose shard lock is held by a thread running a SetIf callback
+	heldKey map[uint64]*Thread
+	heldAll *Thread // symbolic key: the whole map is held
 }
 
 // Opaque is an engine-owned object with a tag and free-form payload.
